@@ -1145,6 +1145,9 @@ def complex_ops(c, which=0):
     if which == 9:
         # literal non-integer exponents only: UFL's degree estimation recurses without end on non-constant exponents
         return inner(f ** 1.5 + (f + 1j) ** 0.5 + (k * f) ** 2.5 + (c.x[0] + f) ** 0.75 + ufl.conj(f) ** 1.25, v) * dx
+    if which == 10:
+        # purely imaginary and negative-imaginary literals as divisors, exponent bases and subtrahends (literal printing must be atomic)
+        return ((f / 2j) * inner(u, v) + inner(grad(u), grad(v)) / (-4j) + (c.x[0] / 3j - 2j) * f * inner(u, v) + (k - 1j) / (0.5j) * inner(u, v)) * dx
     if which == 5:
         n = c.n
         return (inner(jump(u), jump(v)) + (0.5 + 1j) * inner(avg(grad(u)), n("+")) * ufl.conj(jump(v)) + f("+") * ufl.conj(f("-")) * inner(u("+"), v("-"))) * dS
